@@ -29,11 +29,14 @@ ASSUMPTIONS = ASSUMPTIONS_COMMON + [
 
 
 class TagSerDes(SerDes):
+    def __init__(self, tag="T"):
+        self.tag = tag
+
     def serialize(self, value, ctx):
-        return ("T", value)
+        return (self.tag, value)
 
     def deserialize(self, data, ctx):
-        return ("decoded", data)
+        return ("decoded-" + self.tag if self.tag != "T" else "decoded", data)
 
 
 @h.lemma(timeout=150, funcs=ops.CALLBACK_FUNCS, reach=("end", "new", "existing"),
@@ -164,15 +167,15 @@ def invoke_custom_serdes(exists: bool, rv: int):
     """
     post: True
     """
-    rec = ops.invoke_record(exists, 1, ("T", rv), False) if exists else None
+    rec = ops.invoke_record(exists, 1, ("R", rv), False) if exists else None
     st = FakeState(rec)
     from aws_durable_execution_sdk_python.operation.invoke import InvokeOperationExecutor
     from harness.common import IDENT, run
 
-    cfg = InvokeConfig(serdes_payload=TagSerDes(), serdes_result=TagSerDes())
+    cfg = InvokeConfig(serdes_payload=TagSerDes("P"), serdes_result=TagSerDes("R"))
     tr = run(InvokeOperationExecutor("f", rv, st, IDENT, cfg).process, st)
     if exists:
-        h.check(tr.kind == "ret" and tr.value == ("decoded", ("T", rv)))
+        h.check(tr.kind == "ret" and tr.value == ("decoded-R", ("R", rv)), "result must be decoded by serdes_result")
     else:
-        h.check(st.updates_for()[0][0].payload == ("T", rv) and tr.kind == "suspend")
+        h.check(st.updates_for()[0][0].payload == ("P", rv) and tr.kind == "suspend", "payload must be encoded by serdes_payload")
     h.end()
